@@ -15,7 +15,7 @@ RULE = ('layer 1: every single edit (drop/empty/duplicate-value/bogus attribute;
         '97th byte) of 4 seed documents x {4.x,3.x syntax} x {Document+TypeChecker+FeatureChecker, PrettyPrinter} x '
         '{xml-buffer} plus xml-file/xml-fd for a stride; layer 2: libFuzzer fork-mode campaigns over byte-level targets '
         '(xml, xta, query on 3 base documents, every xta_part_t) with a dictionary and the committed seed corpus; layer 1b: a rich XTA '
-        'text damaged at every (quick: every second) token position followed by a valid probe in the same process; layer 3: '
+        'text damaged at every (quick: every second) token position followed by a valid probe in the same process, and an earlier parse followed by empty / blank / comment-only text into a fresh document through every text entry point, part and builder; layer 3: '
         'CPU-time scaling probe over 40 input families (sizes n, 2n, 4n, 8n up to 64 KiB; cpu(8n)/cpu(n) <= 8^2.5, cpu <= 20 s, '
         'no crash). Non-trivial: the input reached the grammar (the position '
         'tracker advanced, i.e. at least one block was handed to the parser); distinct = distinct input bytes x configuration.')
@@ -113,6 +113,34 @@ def history_worker(chk, wi, nw):
         v = verdict(resp)
         if v:
             chk.report(st, v[1], 'history [%s, %s]: %s' % (name, probes[k % len(probes)], v[2][:1500]), {'kind': 'request', 'steps': steps})
+    # an earlier parse in the process, then empty / blank / comment-only text into a FRESH document through every text entry point
+    # (the position bookkeeping of the new document starts from process-wide counters left by the earlier parse)
+    firsts = [ex.step('xml-valid'), ex.step('xta-valid'), ex.step('query-safety')]
+    blanks = ['', ' ', '\n', '// c', '/* c */', '\t\n ']
+    seconds = []
+    for nx in (1, 0):
+        for tx in blanks:
+            for b in ('document', 'builder-only', 'pretty'):
+                seconds.append(dict(entry='xta-buffer', builder=b, newxta=nx, input=tx))
+            seconds.append(dict(entry='xta-file', builder='document', newxta=nx, input=tx))
+            seconds.append(dict(entry='prop-buffer', builder='tiga', newxta=nx, input=tx))
+            for part in range(21):
+                for b in ('builder-only', 'expression'):
+                    seconds.append(dict(entry='part', part=part, builder=b, newxta=nx, input=tx))
+    k = 0
+    for f_ in firsts:
+        for s2 in seconds:
+            k += 1
+            if k % nw != wi:
+                continue
+            steps = [dict(f_, dump='inv'), dict(s2, dump='inv')]
+            resp = orc.request(steps)
+            st.case('history-blank:%d' % k, nontrivial=True, classes=['history:blank-into-fresh-document', 'entry:' + s2['entry']],
+                    sample={'history': [f_['entry'], '%s part=%s builder=%s newxta=%d input=%r' % (s2['entry'], s2.get('part'), s2['builder'], s2['newxta'], s2['input'])]})
+            v = verdict(resp)
+            if v:
+                chk.report(st, v[1], 'history [%s, %s part=%s builder=%s newxta=%d input=%r]: %s' % (f_['entry'], s2['entry'], s2.get('part'), s2['builder'], s2['newxta'], s2['input'], v[2][:1200]),
+                           {'kind': 'request', 'steps': steps})
     orc.close()
     return st
 
